@@ -9,6 +9,7 @@
 From Coq Require Import Arith.
 From PB Require Import Common Tables FdlTables Telegram Phy TokenRing Params Fdl FdlOracle FdlProofs FdlStepProofs.
 From PB Require Import C05Proofs C01Proofs FdlOracleSound1.
+From PB Require C11Proofs C12Proofs C13Proofs C15Proofs.
 
 Definition gv (now : Z) (v : option Z) : Z := match v with Some l => l | None => now end.
 
@@ -1156,3 +1157,219 @@ Proof.
 Qed.
 
 End BK.
+
+(* ------------------------------------------------------------------------------------------ *)
+(* a poll of a station that is online ends in state Offline only by the re-creation (`rst`)      *)
+
+Section OfflineEnd.
+Variable A : Type.
+Variable ops : app_ops A.
+Notation W := (world A).
+
+Definition early_claim (s : state) : Prop := s = ClaimToken StepFirstToken \/ s = ClaimToken StepSecondToken.
+
+Lemma do_claim_token_first_state f now (w : W) f' w' :
+  do_claim_token A f now w = Ok (f', w') -> f_state f = ClaimToken StepFirstToken -> early_claim (f_state f').
+Proof.
+  unfold do_claim_token, assert_entry. intros H Es. rewrite Es in H.
+  cbn [kind_of do_fn_entry state_kind_eqb bind get_claim_token_step] in H.
+  destruct (wait_synchronization_pause f now) as [[f1 wait]| |] eqn:Ew; cbn [bind] in H; try discriminate H.
+  apply wait_sync_same in Ew. destruct Ew as ((_ & _ & _ & _ & Hs1 & _) & _).
+  destruct wait; [injection H as <- <-; left; rewrite Hs1; exact Es|].
+  destruct (phy_send A w _) as [[w1 k]| |]; cbn [bind] in H; try discriminate H.
+  destruct (set_claim_step _ _) as [f2| |] eqn:Es2; cbn [bind] in H; try discriminate H.
+  apply set_claim_step_spec' in Es2. subst f2.
+  match type of H with bind (mark_tx ?fx now k) _ = _ => destruct (mark_tx fx now k) as [f4| |] eqn:Em end; cbn [bind] in H; try discriminate H.
+  injection H as <- <-. apply mark_tx_same in Em. destruct Em as (_ & _ & _ & _ & Hs4 & _). right. rewrite Hs4. reflexivity.
+Qed.
+
+Lemma handle_lost_token_claims f now (w : W) f' w' :
+  handle_lost_token A f now w = Ok (f', w', true) -> early_claim (f_state f').
+Proof.
+  unfold handle_lost_token. intros H.
+  destruct (lba_get_or_insert f now) as [l f0]. destruct (inst_diff now l); cbn [bind] in H; try discriminate H.
+  match type of H with (if ?c then _ else _) = _ => destruct c end; [|discriminate H].
+  match type of H with context [trans A ?a ?b ?c] => destruct (trans A a b c) as [[f1 w1]| |] eqn:Et end; cbn [bind] in H; try discriminate H.
+  apply trans_spec in Et. destruct Et as (s1 & Ht & -> & ->).
+  unfold transition_claim_token in Ht. destruct (assert_kind _ _); cbn [bind] in Ht; try discriminate Ht. injection Ht as <-.
+  destruct (do_claim_token A _ now _) as [[f2 w2]| |] eqn:Ed; cbn [bind] in H; try discriminate H.
+  injection H as <- <- . eapply do_claim_token_first_state; [exact Ed|reflexivity].
+Qed.
+
+Lemma handle_lost_token_keeps f now (w : W) f' w' :
+  handle_lost_token A f now w = Ok (f', w', false) -> f_state f' = f_state f.
+Proof.
+  unfold handle_lost_token. intros Eh.
+  destruct (lba_get_or_insert f now) as [l fx] eqn:El. destruct (inst_diff now l); cbn [bind] in Eh; try discriminate Eh.
+  match type of Eh with (if ?c then _ else _) = _ => destruct c end.
+  - match type of Eh with context [trans A ?a ?b ?c] => destruct (trans A a b c) as [[fy wy]| |] end; cbn [bind] in Eh; try discriminate Eh.
+    destruct (do_claim_token A fy now wy) as [[fz wz]| |]; cbn [bind] in Eh; discriminate Eh.
+  - injection Eh as <- _. apply lba_get_or_insert_same in El. destruct El as ((_ & _ & _ & _ & Hsx & _) & _). exact Hsx.
+Qed.
+
+(* the listen loop: the station is in state Offline only after its re-creation *)
+Definition LS (now : Z) (s : fdl * W) : Prop := f_state (fst s) = Offline -> rstL now (fst s).
+
+Lemma listen_token_telegram_LS now s t il s' u :
+  LS now s -> listen_token_telegram A now s t il = Ok (s', u) -> LS now s'.
+Proof.
+  destruct s as [fc wc]. unfold LS. cbn [fst]. intros HI.
+  destruct (mark_rx_spec fc now) as (ML & MP & MS & MQ & MC & _).
+  assert (HI' : f_state (mark_rx fc now) = Offline -> rstL now (mark_rx fc now)).
+  { rewrite MS. intros C. destruct (HI C) as (S1 & C1 & P1 & L1).
+    split; [congruence|]. split; [congruence|]. split; [exact MP|]. right. rewrite ML.
+    destruct L1 as [-> | ->]; cbn [gv]; f_equal; lia. }
+  clear HI. unfold listen_token_telegram. set (fm := mark_rx fc now) in *.
+  assert (Hsame : forall f1 : fdl, f_state f1 = f_state fm -> f_conn f1 = f_conn fm -> f_pending f1 = f_pending fm -> f_lba f1 = f_lba fm ->
+            f_state f1 = Offline -> rstL now f1).
+  { intros f1 E1 E2 E3 E4 C. rewrite E1 in C. destruct (HI' C) as (S1 & C1 & P1 & L1).
+    split; [congruence|]. split; [congruence|]. split; [congruence|]. rewrite E4. exact L1. }
+  destruct (f_conn fm) eqn:Ec.
+  1:{ intros H. injection H as <- _. cbn [fst]. exact HI'. }
+  all: intros H;
+    (destruct (opt_eqb (source_address t) (Some (ts fm)));
+     [ destruct (get_listen_token (f_state fm)) as [[sr cc]| |]; cbn [bind] in H; try discriminate H;
+       destruct (u8_add cc 1) as [cc'| |]; cbn [bind] in H; try discriminate H;
+       destruct (cc' =? listen_collision_tolerated);
+       [ injection H as <- _; cbn [fst f_state set_st]; intros C; discriminate C
+       | match type of H with bind (set_offline ?fx) _ = _ => destruct (set_offline fx) as [fo| |] eqn:Eo end;
+         cbn [bind] in H; try discriminate H; injection H as <- _;
+         unfold set_offline, set_state in Eo; apply fdl_new_fields in Eo;
+         destruct Eo as (S1 & C1 & L1 & P1 & Q1); cbn [fst]; intros _;
+         split; [exact S1|]; split; [exact C1|]; split; [exact P1|]; left; exact L1 ]
+     | destruct t as [h pdu|da sa|];
+       [ destruct (is_fdl_status_request h && (h_da h =? ts fm));
+         [ destruct il;
+           [ destruct (get_listen_token (f_state fm)) as [[sr cc]| |]; cbn [bind] in H; try discriminate H;
+             injection H as <- _; cbn [fst f_state set_st]; intros C; discriminate C
+           | injection H as <- _; cbn [fst]; exact HI' ]
+         | injection H as <- _; cbn [fst]; exact HI' ]
+       | destruct (witness _ _ _); cbn [bind] in H; try discriminate H;
+         injection H as <- _; cbn [fst]; apply Hsame; [reflexivity|exact Ec|reflexivity|reflexivity]
+       | injection H as <- _; cbn [fst]; exact HI' ] ]).
+Qed.
+
+Lemma do_listen_token_offline now f (w : W) f' w' :
+  do_listen_token A f now w = Ok (f', w') -> f_state f' = Offline -> rst now f'.
+Proof.
+  unfold do_listen_token, assert_entry. intros H Hoff.
+  destruct (f_state f) as [ | |sr0 cc0| | | | | | | ] eqn:Es; cbn [kind_of do_fn_entry state_kind_eqb bind] in H; try discriminate H.
+  destruct (handle_lost_token A f now w) as [[[f0 w0] d]| |] eqn:Eh; cbn [bind] in H; try discriminate H.
+  destruct d.
+  - injection H as <- <-. exfalso. destruct (handle_lost_token_claims _ _ _ _ _ Eh) as [C|C]; rewrite C in Hoff; discriminate Hoff.
+  - pose proof (handle_lost_token_keeps _ _ _ _ _ Eh) as Hs0. rewrite Hs0, Es in H. cbn [get_listen_token bind] in H.
+    destruct sr0 as [src|].
+    + exfalso. destruct (wait_synchronization_pause f0 now) as [[f1 wait]| |] eqn:Ew; cbn [bind] in H; try discriminate H.
+      apply wait_sync_same in Ew. destruct Ew as ((_ & _ & _ & _ & Hs1 & _) & _).
+      destruct wait; [injection H as <- <-; rewrite Hs1, Hs0, Es in Hoff; discriminate Hoff|].
+      destruct (phy_send A w0 _) as [[w1 k]| |]; cbn [bind] in H; try discriminate H.
+      match type of H with bind ?x _ = _ => destruct x as [[f2 w2]| |] eqn:E2 end; cbn [bind] in H; try discriminate H.
+      destruct (mark_tx f2 now k) as [f3| |] eqn:Em; cbn [bind] in H; try discriminate H.
+      injection H as <- <-. apply mark_tx_same in Em. destruct Em as (_ & _ & _ & _ & Hs3 & _). rewrite Hs3 in Hoff.
+      destruct (ready_for_ring (f_ring f1)).
+      * apply trans_spec in E2. destruct E2 as (s2 & Ht & -> & _). cbn in Hoff.
+        unfold transition_active_idle in Ht. destruct (assert_kind _ _); cbn [bind] in Ht; try discriminate Ht. injection Ht as <-. discriminate Hoff.
+      * destruct (get_listen_token (f_state f1)) as [[sr1 cc1]| |]; cbn [bind] in E2; try discriminate E2.
+        injection E2 as <- _. discriminate Hoff.
+    + unfold receive_all_telegrams in H.
+      destruct (receive_all _ _ (f0, w0) (w_rx w0)) as [[[s1 rest] r]| |] eqn:Er; cbn [bind] in H; try discriminate H.
+      destruct s1 as [f1 w1]. injection H as <- _. cbn [f_state sync_pending_bytes set_pending] in Hoff.
+      assert (Hl : LS now (f1, w1)).
+      { refine (receive_all_inv (LS now) _ _ _ (f0, w0) _ (f1, w1) rest r _ Er).
+        - intros s t l s' u Hp Hc. exact (listen_token_telegram_LS _ _ _ _ _ _ Hp Hc).
+        - unfold LS. cbn [fst]. rewrite Hs0, Es. intros C. discriminate C. }
+      destruct (Hl Hoff) as (S1 & C1 & P1 & L1). cbn [fst] in *.
+      split; [exact S1|]. split; [exact C1|]. split; [cbn; rewrite P1; reflexivity|exact L1].
+Qed.
+
+(* the other state functions do not end in state Offline *)
+Lemma do_claim_token_not_off f now (w : W) f' w' : do_claim_token A f now w = Ok (f', w') -> f_state f' <> Offline.
+Proof.
+  intros H C. destruct (C12Proofs.do_claim_token_spec A _ _ _ _ _ H) as (st0 & Es0 & _ & _ & _ & _ & Hspec).
+  rewrite Es0 in Hspec. destruct st0 as [ | | |a0].
+  - destruct Hspec as (_ & [(_ & E & _)|(_ & _ & E & _)]); rewrite E in C; discriminate C.
+  - destruct Hspec as (_ & [(_ & E & _)|(_ & _ & E & _)]); rewrite E in C; discriminate C.
+  - destruct Hspec as (_ & _ & [(_ & E & _)|[(_ & _ & _ & E)|[(_ & cur & _ & _ & _ & E)|(cur & a1 & _ & _ & _ & E & _)]]]); rewrite E in C; discriminate C.
+  - destruct Hspec as (_ & _ & rest & received & _ & _ & Hcases).
+    destruct Hcases as [(_ & _ & E & _)|[(t & _ & _ & _ & E & _)|[(t & _ & _ & _ & E & _)|(_ & _ & [(_ & E & _)|[(_ & _ & _ & E)|(a1 & _ & _ & E & _)]])]]];
+      rewrite E in C; discriminate C.
+Qed.
+
+Lemma squiet_not_off now f (w : W) f' w' : C15Proofs.squiet A now f w f' w' -> f_state f <> Offline -> f_state f' <> Offline.
+Proof. intros (_ & _ & Hq) Hn C. rewrite C in Hq. cbn in Hq. apply Hn. symmetry. exact Hq. Qed.
+
+Lemma do_use_token_not_off f now (w : W) f' w' : do_use_token A ops f now w = Ok (f', w') -> f_state f' <> Offline.
+Proof.
+  intros H C.
+  assert (Hst : exists tk fa fcd, f_state f = UseToken tk fa fcd).
+  { unfold do_use_token, assert_entry in H. destruct (f_state f); cbn in H; try discriminate H. eauto. }
+  destruct Hst as (tk & fa & fcd & Es).
+  destruct (C13Proofs.do_use_token_state A ops _ _ _ _ _ _ _ _ H Es) as (_ & _ & [(E & _)|[(fa' & E)|[(a & fa' & E)|[E|E]]]]);
+    try (rewrite E in C; try rewrite Es in C; discriminate C).
+  rewrite C in E. discriminate E.
+Qed.
+
+Lemma do_await_data_not_off f now (w : W) f' w' : do_await_data_response A ops f now w = Ok (f', w') -> f_state f' <> Offline.
+Proof.
+  intros H C. apply (C15Proofs.do_await_data_response_split A ops) in H.
+  destruct H as (a1 & tk1 & fa1 & ap & Es & _ & [(t & ap' & _ & _ & _ & _ & _ & E)|[(_ & _ & E)|[(_ & _ & E)|(ap' & f3 & w3 & _ & _ & _ & _ & _ & Hdo)]]]);
+    try (rewrite E in C; try rewrite Es in C; discriminate C).
+  exact (do_use_token_not_off _ _ _ _ _ Hdo C).
+Qed.
+
+Lemma do_active_idle_not_off f now (w : W) f' w' : do_active_idle A f now w = Ok (f', w') -> f_state f' <> Offline.
+Proof.
+  intros H C. unfold do_active_idle, assert_entry in H.
+  destruct (f_state f) as [ | | |sr nps cc| | | | | | ] eqn:Es; cbn [kind_of do_fn_entry state_kind_eqb bind] in H; try discriminate H.
+  destruct (handle_lost_token A f now w) as [[[f0 w0] d]| |] eqn:Eh; cbn [bind] in H; try discriminate H.
+  destruct d.
+  - injection H as <- <-. destruct (handle_lost_token_claims _ _ _ _ _ Eh) as [E|E]; rewrite E in C; discriminate C.
+  - pose proof (handle_lost_token_keeps _ _ _ _ _ Eh) as Hs0. rewrite Hs0, Es in H. cbn [get_active_idle bind] in H.
+    destruct sr as [src|].
+    + destruct (wait_synchronization_pause f0 now) as [[f1 wait]| |] eqn:Ew; cbn [bind] in H; try discriminate H.
+      apply wait_sync_same in Ew. destruct Ew as [[_ [_ [_ [_ [Hs1 _]]]]] _].
+      destruct wait; [injection H as <- <-; rewrite Hs1, Hs0, Es in C; discriminate C|].
+      destruct (phy_send A w0 _) as [[w1 k]| |]; cbn [bind] in H; try discriminate H.
+      destruct (mark_tx _ now k) as [f2| |] eqn:Em; cbn [bind] in H; try discriminate H.
+      injection H as <- <-. apply mark_tx_same in Em. destruct Em as [_ [_ [_ [_ [Hs2 _]]]]].
+      rewrite Hs2 in C. cbn in C. discriminate C.
+    + unfold receive_all_telegrams in H.
+      destruct (receive_all _ _ _ _) as [[[s1 rest] r]| |] eqn:Er; cbn [bind] in H; try discriminate H.
+      destruct s1 as [f1 w1]. injection H as <- _.
+      assert (Hk : C11Proofs.heard_kind (f_state (fst (f1, w1)))).
+      { refine (receive_all_inv (fun s : fdl * W => C11Proofs.heard_kind (f_state (fst s))) (active_idle_telegram A now) _ _ (f0, w0) _ (f1, w1) rest r _ Er).
+        - intros s t il s' u Hp Hc. exact (C11Proofs.active_idle_telegram_heard A now s t il s' u Hp Hc).
+        - cbn [fst]. rewrite Hs0, Es. exact I. }
+      cbn [fst] in Hk. cbn in C. rewrite C in Hk. exact Hk.
+Qed.
+
+Lemma poll_offline_rst f now pin (apps : list A) f' o apps' calls :
+  poll ops f now pin apps = Ok (f', o, apps', calls) -> f_conn f = ConnOnline -> f_state f' = Offline -> rst now f'.
+Proof.
+  intros H Hc Hoff. apply (C11Proofs.poll_inv A ops) in H. destruct H as (w' & H & _).
+  unfold poll_inner in H. rewrite Hc in H.
+  assert (Hb : exists f0 w0, f_state f0 <> Offline /\ C11Proofs.body A ops f0 now (tx_busy pin) w0 = Ok (f', w')).
+  { destruct (online_entry_kind (kind_of (f_state f))) eqn:Ek.
+    - unfold trans, transition_listen_token, assert_kind in H.
+      destruct (may_transition_listen_token (kind_of (f_state f))); cbn [bind] in H; [|discriminate H].
+      rewrite C11Proofs.body_eq in H. eexists. eexists. split; [|exact H]. cbn. discriminate.
+    - cbn [bind] in H. rewrite C11Proofs.body_eq in H. exists f. eexists. split; [|exact H].
+      intros C. rewrite C in Ek. discriminate Ek. }
+  destruct Hb as (f0 & w0 & Hn0 & Hb). unfold C11Proofs.body in Hb.
+  destruct (tx_busy pin || C11Proofs.predicted f0 now).
+  - injection Hb as <- _. exfalso. apply Hn0. destruct (mark_bus_activity_spec f0 now) as (_ & _ & Hs & _). rewrite <- Hs. exact Hoff.
+  - destruct (check_for_bus_activity A f0 now w0) as [f1 w1] eqn:Ecf.
+    apply C11Proofs.cfba_spec in Ecf. destruct Ecf as ((_ & _ & _ & _ & Hs1 & _) & _).
+    rewrite <- Hs1 in Hn0. unfold C11Proofs.dispatch in Hb.
+    destruct (f_state f1) eqn:Es1; cbn [kind_of poll_dispatch] in Hb; try discriminate Hb; try (exfalso; apply Hn0; reflexivity).
+    + eapply do_listen_token_offline; eassumption.
+    + exfalso. exact (do_active_idle_not_off _ _ _ _ _ Hb Hoff).
+    + exfalso. exact (do_use_token_not_off _ _ _ _ _ Hb Hoff).
+    + exfalso. exact (do_claim_token_not_off _ _ _ _ _ Hb Hoff).
+    + exfalso. exact (do_await_data_not_off _ _ _ _ _ Hb Hoff).
+    + exfalso. refine (squiet_not_off now _ _ _ _ (C15Proofs.do_pass_token_squiet A _ _ _ _ _ Hb) _ Hoff). rewrite Es1. discriminate.
+    + exfalso. refine (squiet_not_off now _ _ _ _ (C15Proofs.do_check_token_pass_squiet A _ _ _ _ _ Hb) _ Hoff). rewrite Es1. discriminate.
+    + exfalso. refine (squiet_not_off now _ _ _ _ (C15Proofs.do_await_status_response_squiet A _ _ _ _ _ Hb) _ Hoff). rewrite Es1. discriminate.
+Qed.
+
+End OfflineEnd.
